@@ -93,6 +93,10 @@ func rerun(in, out string) {
 			}
 			sconn := &scriptConn{frames: frames}
 			c := nclient4.NewBroadcastUDPConn(sconn, &net.UDPAddr{IP: bip, Port: int(bound["port"].(float64))})
+			if int(bound["port"].(float64)) == -1 {
+				c = nclient4.NewBroadcastUDPConn(sconn, nil)
+			}
+			var held []*net.UDPAddr
 			res := []any{}
 			delete(e, "panic")
 			func() {
@@ -108,10 +112,13 @@ func rerun(in, out string) {
 						e["end"] = err == errScriptEnd
 						return
 					}
-					u := addr.(*net.UDPAddr)
-					res = append(res, map[string]any{"payload": B(b[:k]), "src": endpoint(u.IP, u.Port)})
+					held = append(held, addr.(*net.UDPAddr))
+					res = append(res, map[string]any{"payload": B(b[:k])})
 				}
 			}()
+			for i, u := range held {
+				res[i].(map[string]any)["src"] = endpoint(u.IP, u.Port)
+			}
 			e["res"] = res
 			redone++
 		}
